@@ -3,6 +3,7 @@ C03 for ATSP: the reward `-cost_matrix[b, actions, roll(actions, -1)].sum(-1)` i
 the DIRECTED closed tour a₀ → a₁ → … → a_{n-1} → a₀ over the (asymmetric) cost matrix, for EVERY
 action list and every matrix (no symmetry, no zero diagonal, no triangle inequality needed).
 -/
+import Rl4co.Proofs.TspfamTour
 import Rl4co.Env.Atsp
 import Rl4co.Proofs.TspfamParams
 import Rl4co.Spec.Atsp
@@ -17,5 +18,32 @@ theorem reward_eq_objective (i : Inst) (as : List Nat) :
 /-- Direction matters and is the right one: on `M a b = 10·a + b` the tour 2 → 0 → 1 → 2 costs
 `M 2 0 + M 0 1 + M 1 2 = 20 + 1 + 12`, not the reversed `M 0 2 + M 1 0 + M 2 1 = 2 + 10 + 21`. -/
 example : reward ⟨3, fun a b => (10 * a + b : Int)⟩ [2, 0, 1] = -(20 + 1 + 12) := by decide
+
+end Rl4co.Atsp
+
+namespace Rl4co.Spec.Atsp
+/-- rotation invariance holds for the directed objective as well; reversal invariance does NOT (see the
+example: arcs cost 1 upwards and 5 downwards) -/
+theorem objective_roll1 (M : Nat → Nat → Int) (as : List Nat) : objective M (roll1 as) = objective M as :=
+  Rl4co.Tspfam.closedLen_roll1 M as
+
+example : objective (fun a b => if a < b then (1 : Int) else 5) [2, 0, 1] ≠
+    objective (fun a b => if a < b then (1 : Int) else 5) [2, 0, 1].reverse := by
+  decide
+end Rl4co.Spec.Atsp
+
+namespace Rl4co.Atsp
+open Rl4co.Tspfam
+
+/-- **C03 (ATSP), leg by leg**: the reward is minus the sum over the steps `k` of the cost of the arc FROM the
+`k`-th visited node TO the `(k+1 mod n)`-th visited node — source index first, as in the cost matrix. -/
+theorem reward_legs (i : Inst) (as : List Nat) :
+    reward i as =
+      - ((List.range as.length).map (fun k => i.M (as.getD k 0) (as.getD ((k + 1) % as.length) 0))).sum := by
+  rw [reward_eq, zipWith_roll1_legs]
+
+/-- the reward does not depend on which node of the closed tour the episode started at -/
+theorem reward_roll1 (i : Inst) (as : List Nat) : reward i (roll1 as) = reward i as := by
+  rw [reward_eq_objective, reward_eq_objective, Spec.Atsp.objective_roll1]
 
 end Rl4co.Atsp
